@@ -71,7 +71,8 @@ class Scenario:
         w = self.nw.world
         known = {s.fs for s in self.socks}
         for fs in w.socks:
-            if fs.kind == "dialled" and fs not in known:
+            if fs.kind == "dialled" and fs not in known and not (fs.closed and not fs.conn_done and not fs.connecting):
+                # (a synchronously refused connect is over before the environment could ever use the socket)
                 s = Sock(fs, "dialled", len(self.socks))
                 pn = fs.peer_name
                 for p, pc in zip(self.nw.peers, self.cfg.get("peers", [])):
